@@ -77,7 +77,7 @@ STUB = ['event loop + clock', 'TCP', 'executor', 'OS randomness',
 PROBES = ['success_seen', 'pipelined', 'validator_async',
           'success_with_pending_request', 'probe_before_auth',
           'options_checked', 'honest_admitted', 'honest_rejected',
-          'auth_completed_round_trip',
+          'auth_completed_round_trip', 'empty_user_name',
           'guest_success', 'kbdint_success', 'pk_success', 'pw_success',
           'hostbased_request', 'hostbased_success',
           'pop_restrict', 'agent_used', 'agent_fault_fired', 'cert_offered',
@@ -103,7 +103,7 @@ KEYS = {
 }
 ALL_KEYS = ['user_ed25519', 'user2_ed25519', 'user_rsa', 'evil_ed25519',
             'user_ecdsa256']
-USERS = ['alice', 'bob', 'guest', 'kbd', 'nobody']
+USERS = ['alice', 'bob', 'guest', 'kbd', 'nobody', '']
 
 # host-based authentication: the server's known_client_hosts, the
 # application's (user, client host, client user) policy, the names a
@@ -356,12 +356,16 @@ class AuthServer(RecServer):
         self.seen = {'tcp': []}
         self.completed_as = None
         self.validations = []
+        self.begun = set()
+        self.not_begun = []
 
     async def _delay(self, label):
         for _ in range(1 + self.plan['val_delay']):
             await self.sim.app_event(label)
 
     def begin_auth(self, username):
+        self.begun.add(username)
+
         def decide():
             if username == 'bob':
                 self.conn.set_authorized_keys(
@@ -399,7 +403,14 @@ class AuthServer(RecServer):
     def password_auth_supported(self):
         return True
 
+    def _check_begun(self, what, username):
+        # the application is asked about a user it was never told of:
+        # whatever begin_auth() sets up or refuses per user did not happen
+        if username not in self.begun:
+            self.not_begun.append((what, username))
+
     def validate_password(self, username, password):
+        self._check_begun('validate_password', username)
         ok = PASSWORDS.get(username) == password
         self.validations.append(('pw', username, ok))
 
@@ -416,6 +427,7 @@ class AuthServer(RecServer):
         return True
 
     def validate_public_key(self, username, k):
+        self._check_begun('validate_public_key', username)
         ok = username == 'alice' and \
             k.public_data == pubkey('user_ed25519').public_data
         self.validations.append(('pk', username, ok))
@@ -945,6 +957,17 @@ def run_hostile(world, plan):
 
     if any(plan.get(k) for k in ('async_begin', 'async_pw', 'async_pk')):
         sim.probes['validator_async'] += 1
+
+    if o is not None and o.not_begun:
+        world.violation(
+            'begin-auth-skipped', 'the application was asked to check a '
+            'credential (%s) for user %r without begin_auth() having been '
+            'called for that user; requests: %r' %
+            (o.not_begun[0][0], o.not_begun[0][1], hist),
+            sig=repr(o.not_begun[0][1]))
+
+    if any(h[1] == '' for h in hist if len(h) > 1):
+        sim.probes['empty_user_name'] += 1
 
     world.open_gate('done')
     world.run_phase()
